@@ -9,7 +9,7 @@
 use serde_json::{Value, json};
 use std::collections::BTreeMap;
 use surf_n_term::{
-    Color, Image, ImageHandler, KittyImageHandler, Position, RGBA, Size, Surface, SurfaceOwned,
+    Color, Image, ImageHandler, KittyImageHandler, Position, RGBA, Shape, Size, Surface, SurfaceOwned,
     TerminalEvent,
 };
 use verif_harness::{Cfg, guarded, r#gen::Rng, out::Out, out::hex};
@@ -415,6 +415,24 @@ impl<'a> Runner<'a> {
             contents.push(by_get);
         }
         let hashes: Vec<u64> = imgs.iter().map(|i| Surface::hash(i)).collect();
+        // Shape::view / transpose, as far as the hypotheses of the theorems rest on them (WF of cropped images)
+        for spec in hist.imgs.iter() {
+            let show = |s: Shape| format!("{} {} {} {} {} {}", s.start, s.end, s.width, s.height, s.row_stride, s.col_stride);
+            let base = Shape::from(Size { height: spec.ph, width: spec.pw });
+            let mut cur = base;
+            if spec.transpose {
+                let t = SurfaceOwned::<RGBA>::new(Size { height: spec.ph, width: spec.pw }).transpose().shape();
+                self.out.corr(&format!("c11 transpose {}", show(base)), &show(t));
+                cur = t;
+            }
+            if let Some((r0, r1, c0, c1)) = spec.crop {
+                let (r1c, c1c) = (r1.min(cur.height), c1.min(cur.width));
+                if r0 < r1c && c0 < c1c {
+                    let v = cur.view(r0..r1, c0..c1);
+                    self.out.corr(&format!("c11 crop {} {r0} {r1c} {c0} {c1c}", show(cur)), &show(v));
+                }
+            }
+        }
 
         // ---- run the implementation -------------------------------------------------------------
         let mut handler = if hist.quiet { KittyImageHandler::new().quiet() } else { KittyImageHandler::new() };
@@ -604,7 +622,11 @@ impl<'a> Runner<'a> {
                         let held = live.get(id).unwrap();
                         if (held.0, held.1) != (ct.0, ct.1) || held.2 != ct.2 {
                             // either wrong pixels were sent now, or another content owns this id
-                            let other_owner = placed.iter().any(|p| p.id == *id && contents[p.img] != *ct);
+                            // excused only when the 64-bit content hashes of the two images really agree
+                            // modulo 2^32-1 (an id of 32 bits cannot separate them): the property's assumption
+                            let other_owner = placed.iter().any(|p| {
+                                p.id == *id && contents[p.img] != *ct && hashes[p.img] % 4294967295 == hashes[*ki] % 4294967295
+                            });
                             if other_owner && cmds.len() == 1 {
                                 id_collision = true; // hash collision mod 2^32-1: outside the property's assumption
                                 self.out.hist("note:image-id-collision-skipped");
@@ -920,6 +942,7 @@ fn corner_case(run: &mut Runner) {
 /// 1x1 images whose id is 0: run the real handler, read `i=` of the transmission
 fn id_zero_search(out: &mut Out, thorough: bool) {
     let mut examined = 0u64;
+    let found = std::cell::Cell::new(0u64);
     let scan = |r: u8, g: u8, b: u8, a: u8, out: &mut Out| {
         let img = Image::from(SurfaceOwned::new_with(Size { height: 1, width: 1 }, |_| RGBA::new(r, g, b, a)));
         let mut buf = Vec::with_capacity(96);
@@ -930,6 +953,7 @@ fn id_zero_search(out: &mut Out, thorough: bool) {
         // "\x1b_Ga=t,f=32,i=<id>,"  — cheap scan, full parse only on suspicion
         let zero = buf.windows(5).any(|w| w == b",i=0,") || buf.windows(5).any(|w| w == b",i=0;");
         if zero {
+            found.set(found.get() + 1);
             out.fail("image id 0 (= unspecified) used for a transmission", json!({"history": History { quiet: false, imgs: vec![solid(1, 1, [r, g, b, a])], evs: vec![EvSpec::Draw(0, 1, 1)] }.to_json()}), json!("non-zero id"), json!(0));
         }
     };
@@ -950,7 +974,7 @@ fn id_zero_search(out: &mut Out, thorough: bool) {
             }
         }
     }
-    out.extra("id_zero_search", json!({"one_by_one_images_examined": examined, "alpha": 104, "found": 0}));
+    out.extra("id_zero_search", json!({"one_by_one_images_examined": examined, "alpha": 104, "found": found.get()}));
 }
 
 fn main() {
